@@ -183,6 +183,11 @@ func (c *Ctx) Finish(verifDir string, start time.Time, level string, explanation
 			}
 		}
 	}
+	if verbose {
+		for _, o := range c.obs {
+			fmt.Printf("  . %-8s %-9s %s | %s | %s | %s\n", o.Rule, o.Kind, o.Pos, o.Func, o.Construct, o.By)
+		}
+	}
 	// report
 	fmt.Printf("== %s  tier=%s  goarch=%s  repo=%s\n", c.Property, c.Tier, c.P.GOARCH, c.P.Dir)
 	for _, id := range c.order {
